@@ -174,21 +174,28 @@ func (wf *Workflow) SetSink(sink *Sink) {
 // currently running in the workflow
 func (wf *Workflow) IncConcurrentTasks(slots int) {
 	// We must lock so that multiple processes don't end up with partially "filled slots"
+	verifPoint("slots.before_lock", wf.name, slots)
 	wf.concurrentTasksMx.Lock()
+	verifPoint("slots.locked", wf.name, slots)
 	for i := 0; i < slots; i++ {
+		verifPoint("slots.deposit", wf.name, i)
 		wf.concurrentTasks <- struct{}{}
 		Debug.Println("Increased concurrent tasks")
 	}
 	wf.concurrentTasksMx.Unlock()
+	verifPoint("slots.acquired", wf.name, slots)
 }
 
 // DecConcurrentTasks decreases the conter for how many concurrent tasks are
 // currently running in the workflow
 func (wf *Workflow) DecConcurrentTasks(slots int) {
+	verifPoint("slots.releasing", wf.name, slots)
 	for i := 0; i < slots; i++ {
+		verifPoint("slots.release", wf.name, i)
 		<-wf.concurrentTasks
 		Debug.Println("Decreased concurrent tasks")
 	}
+	verifPoint("slots.released", wf.name, slots)
 }
 
 // PlotGraph writes the workflow structure to a dot file
@@ -315,9 +322,11 @@ func (wf *Workflow) runProcs(procs map[string]WorkflowProcess) {
 		go proc.Run()
 	}
 
+	verifPoint("wf.procs_started", wf.name, len(procs))
 	Debug.Printf("%s: Starting driver process (%s) in main go-routine", wf.name, wf.driver.Name())
 	wf.Auditf("Starting workflow (Writing log to %s)", wf.logFile)
 	wf.driver.Run()
+	verifPoint("wf.driver_returned", wf.name, 0)
 	wf.Auditf("Finished workflow (Log written to %s)", wf.logFile)
 }
 
